@@ -462,4 +462,32 @@ theorem EncodeMapEntryHeader_refines (fuel : Nat) (hf : 10 ≤ fuel) (p : Bytes)
     simp only [hst, EncOut.ofRes, s1bad h1]
 
 
+/-- **`(*Encoder).EncodeRaw` of the source refines `Enc.step (.raw d)`**: nothing for an empty slice; otherwise a `copy`
+    (silently truncated when the buffer is short) and the cursor advanced by `len(d)`; a cursor already beyond the buffer
+    makes the slice expression panic -/
+theorem EncodeRaw_refines (fuel : Nat) (p : Bytes) (off : BitVec 64) (d : Bytes)
+    (hp : p.length < 2 ^ 62) (hd : d.length < 2 ^ 62) (hoff63 : off.toNat < 2 ^ 63) :
+    match ({ buf := p, off := off.toNat } : Enc).step (.raw d) with
+    | .ok e' => ∃ s, Encoder_EncodeRaw fuel p off d = .ret () s ∧ s.e_p = e'.buf ∧ s.e_offset.toNat = e'.off
+    | .panic => Encoder_EncodeRaw fuel p off d = .panic
+    | .err _ => False := by
+  obtain ⟨N, hNdef, hN⟩ : ∃ N : BitVec 64, N = BitVec.ofNat 64 d.length ∧ N.toNat = d.length := ⟨_, rfl, by simp; omega⟩
+  have hslt : BitVec.slt 0#64 N = decide (0 < d.length) := by
+    have := slt_ofNat 0 d.length (by omega) (by omega)
+    rw [hNdef]; simpa using this
+  unfold Encoder_EncodeRaw Encoder_EncodeRaw.body
+  simp only [Go.seq, Go.skip, Enc.step, ← hNdef, hslt]
+  cases hd0 : d with
+  | nil => simp
+  | cons x r =>
+    rw [← hd0]
+    have hpos : 0 < d.length := by rw [hd0]; simp
+    have hne : d.isEmpty = false := by rw [hd0]; rfl
+    simp only [hpos, decide_true, if_true, hne, Bool.false_eq_true, if_false, Enc.copy, Enc.copyAdv, Enc.cap]
+    by_cases hle : off.toNat ≤ p.length
+    · have hadv : (off + N).toNat = off.toNat + d.length := by rw [BitVec.toNat_add, hN, Nat.mod_eq_of_lt (by omega)]
+      simp only [hle, if_true, EncOut.ofRes, copyAt_eq]
+      exact ⟨_, rfl, rfl, hadv⟩
+    · simp only [hle, if_false, EncOut.ofRes]
+
 end Csproto.Bridge.EncoderFuncs
